@@ -194,7 +194,8 @@ func (g *gen) genBadProvide(s int) Op {
 		t := g.pickStr(g.k.Types, "dupt")
 		f.R = []Result{{T: t}, {IsObj: true, Obj: []Result{{T: "T5", Name: "zz"}, {IsObj: true, Obj: []Result{{T: t}}}}}}
 	case 13: // flatten on slices with As, on named slices
-		f.R = []Result{{Host: "NS0"}}
+		f.R = []Result{{Host: g.pickStr([]string{"NS0", "NS1"}, "nsk")}}
+		f.P = nil
 		o.Group = "g,flatten"
 		if g.pct(70, "fas") {
 			o.As = []string{"I0"}
